@@ -614,5 +614,140 @@ Proof.
     split; [reflexivity|]. split; [nra|]. split; [auto|]. split; [nra|].
     split; [apply (inv2_orth (0, 1) (a, 0)); unfold dot2; cbn [fst snd n_mul n_add RO]; nra|].
     split; [f_equal; nra|]. split; [nra|].
-    split; intros; destruct Ha; subst; try lra. right. lra.
+    split; intros; destruct Ha; subst; lra.
+Qed.
+
+(* ---------------------------------------------- collinear sets, tangents, 1-d normals *)
+Lemma cross_vadd_l (a b t : V) : crossR (vadd R RO a b) t = vadd R RO (crossR a t) (crossR b t).
+Proof. destruct a as [[a0 a1] a2], b as [[b0 b1] b2], t as [[t0 t1] t2]. rsimp. apply v3_ext; ring. Qed.
+Lemma cross_vsub_l (a b t : V) : crossR (vsubR a b) t = vsubR (crossR a t) (crossR b t).
+Proof. destruct a as [[a0 a1] a2], b as [[b0 b1] b2], t as [[t0 t1] t2]. rsimp. apply v3_ext; ring. Qed.
+Lemma cross_vdiv_l (a t : V) s : crossR (vdivR a s) t = vdivR (crossR a t) s.
+Proof. destruct a as [[a0 a1] a2], t as [[t0 t1] t2]. rsimp. unfold Rdiv. apply v3_ext; ring. Qed.
+Lemma cross_zero3_l (t : V) : crossR (zero3 R RO) t = zero3 R RO.
+Proof. destruct t as [[t0 t1] t2]. rsimp. apply v3_ext; ring. Qed.
+Lemma vsub_self (a : V) : vsubR a a = zero3 R RO.
+Proof. destruct a as [[a0 a1] a2]. rsimp. apply v3_ext; ring. Qed.
+
+Lemma cross_vsum (t w : V) l :
+  Forall (fun p => crossR p t = w) l -> crossR (vsumR l) t = vscaleR (INR (length l)) w.
+Proof.
+  induction 1 as [|p l Hp Hl IH].
+  - cbn [vsum fold_right length INR]. rewrite cross_zero3_l.
+    destruct w as [[a b] c]. rsimp. apply v3_ext; ring.
+  - cbn [vsum fold_right]. fold (vsumR l). rewrite cross_vadd_l, IH, Hp.
+    change (length (p :: l)) with (S (length l)). rewrite S_INR.
+    destruct w as [[a b] c]. rsimp. apply v3_ext; ring.
+Qed.
+
+Lemma mean_on_line (t w : V) l :
+  l <> [] -> Forall (fun p => crossR p t = w) l -> crossR (meanR l) t = w.
+Proof.
+  intros Hne Hall. unfold mean. cbn [n_ofnat RO].
+  assert (Hn : INR (length l) <> 0).
+  { apply not_0_INR. destruct l; [congruence|cbn; discriminate]. }
+  rewrite cross_vdiv_l, (cross_vsum t w) by auto.
+  destruct w as [[a b] c]. rsimp. apply v3_ext; field; auto.
+Qed.
+
+(* x and g both parallel to t <> 0, g a unit vector: x is a multiple of g *)
+Lemma parallel_unit (x g t : V) :
+  0 < dotR t t -> crossR x t = zero3 R RO -> crossR g t = zero3 R RO -> dotR g g = 1 ->
+  x = vscaleR (dotR x g) g.
+Proof.
+  destruct x as [[x0 x1] x2], g as [[g0 g1] g2], t as [[t0 t1] t2]. rsimp.
+  intros Ht Hx Hg Hgg. injection Hx as X0 X1 X2. injection Hg as G0 G1 G2.
+  assert (Hc : forall P : R, (t0*t0+t1*t1+t2*t2) * ((t0*t0+t1*t1+t2*t2) * P) = 0 -> P = 0).
+  { intros P HP. apply Rmult_integral in HP as [HP|HP]; [lra|].
+    apply Rmult_integral in HP as [HP|HP]; [lra|exact HP]. }
+  apply v3_ext; apply Rminus_diag_uniq; apply Hc; nsatz.
+Qed.
+
+Lemma compute_tangent_spec (pts : list V) (t w tg : V) :
+  0 < dotR t t -> Forall (fun p => crossR p t = w) pts ->
+  compute_tangent R RO pts = Ok tg ->
+  dotR tg tg = 1 /\ crossR tg t = zero3 R RO /\
+  forall p q, In p pts -> In q pts -> vsubR p q = vscaleR (dotR (vsubR p q) tg) tg.
+Proof.
+  intros Ht Hall. unfold compute_tangent.
+  destruct pts as [|p0 pts0] eqn:Ep; [discriminate|]. rewrite <- Ep in *.
+  assert (Hne : pts <> []) by (rewrite Ep; discriminate).
+  cbv zeta. set (c := meanR pts).
+  pose proof (mean_on_line t w pts Hne Hall) as Hc. fold c in Hc.
+  set (tl := map (fun p => vsubR p c) pts).
+  set (g := nth (argmax R RO (map normsqR tl)) tl (zero3 R RO)).
+  assert (Hg : crossR g t = zero3 R RO).
+  { subst g. destruct (nth_in_or_default (argmax R RO (map normsqR tl)) tl (zero3 R RO)) as [Hin|He].
+    - apply in_map_iff in Hin as (p & <- & Hp). rewrite cross_vsub_l.
+      rewrite Forall_forall in Hall. rewrite (Hall p Hp), Hc. apply vsub_self.
+    - rewrite He. apply cross_zero3_l. }
+  destruct (allclose0R g) eqn:EB; [discriminate|].
+  intros H. injection H as <-.
+  apply allclose0_false_pos in EB. destruct (sqrt_facts _ EB) as [Hp _].
+  assert (Hu : dotR (vdivR g (normR g)) (vdivR g (normR g)) = 1) by (apply (normalize_unit g); auto).
+  assert (Hgt : crossR (vdivR g (normR g)) t = zero3 R RO).
+  { rewrite cross_vdiv_l, Hg. unfold norm. cbn [n_sqrt RO].
+    rsimp. unfold Rdiv. apply v3_ext; ring. }
+  split; [exact Hu|]. split; [exact Hgt|].
+  intros p q Hpi Hqi. apply (parallel_unit _ _ t); auto.
+  rewrite cross_vsub_l. rewrite Forall_forall in Hall.
+  rewrite (Hall p Hpi), (Hall q Hqi). apply vsub_self.
+Qed.
+
+Lemma mv_vscale (A : M) s (x : V) : mvR A (vscaleR s x) = vscaleR s (mvR A x).
+Proof.
+  destruct A as [[[[a00 a01] a02] [[a10 a11] a12]] [[a20 a21] a22]], x as [[x0 x1] x2].
+  rsimp. apply v3_ext; ring.
+Qed.
+
+Lemma line_matrix_pts_spec (pts : list V) (r t w : V) (Rm : M) :
+  0 < dotR t t -> Forall (fun p => crossR p t = w) pts -> dotR r r = 1 ->
+  line_matrix_pts R RO pts r = Ok Rm ->
+  exists tg, compute_tangent R RO pts = Ok tg /\
+    mmR (mTR Rm) Rm = identR /\ detR Rm = 1 /\
+    (in_band tg r = false ->
+       mvR Rm tg = r /\
+       forall p q, In p pts -> In q pts ->
+         mvR Rm (vsubR p q) = vscaleR (dotR (vsubR p q) tg) r) /\
+    (in_band tg r = true ->
+       Rm = identR /\ normsqR (vsubR tg (vscaleR (dotR tg r) r)) <= 3 * (atolR * atolR)).
+Proof.
+  intros Ht Hall Hr. unfold line_matrix_pts.
+  destruct (compute_tangent R RO pts) as [tg|e] eqn:ET; [|discriminate].
+  intros H. destruct (compute_tangent_spec pts t w tg Ht Hall ET) as (Hu & _ & Hpq).
+  destruct (project_matrix_spec tg r Hu Hr) as (Rm' & E & Ho & Hd & Hout & Hin).
+  rewrite E in H. injection H as <-.
+  exists tg. split; [reflexivity|]. split; [exact Ho|]. split; [exact Hd|].
+  split; [|exact Hin].
+  intros Hb. split; [apply Hout; exact Hb|].
+  intros p q Hp Hq. rewrite (Hpq p q Hp Hq) at 1. rewrite mv_vscale, (Hout Hb). reflexivity.
+Qed.
+
+Lemma unit_not_allclose0 (t : V) : dotR t t = 1 -> allclose0R t = false.
+Proof.
+  intros Ht. destruct (allclose0R t) eqn:E; [|reflexivity].
+  apply allclose0_true in E. destruct E as (Ex & Ey & Ez).
+  destruct t as [[a b] c]. rsimp. lra.
+Qed.
+
+Lemma normals_1d_spec (pts : list V) (n1 n2 : V) :
+  compute_normals_1d R RO pts = Ok (n1, n2) ->
+  exists tg, compute_tangent R RO pts = Ok tg /\
+    (dotR tg tg = 1 ->
+     dotR n1 n1 = 1 /\ dotR n2 n2 = 1 /\ dotR n1 n2 = 0 /\ dotR n1 tg = 0 /\ dotR n2 tg = 0).
+Proof.
+  unfold compute_normals_1d.
+  destruct (compute_tangent R RO pts) as [tg|e] eqn:ET; [|discriminate].
+  cbv zeta. match goal with |- context [if ?b then _ else _] => destruct b eqn:EB end;
+    [discriminate|].
+  intros H. injection H as <- <-. exists tg. split; [reflexivity|]. intros Hu.
+  cbn [n_leb n_zero RO] in EB. apply Rleb_false in EB.
+  unfold rotation_matrix. rewrite (unit_not_allclose0 tg Hu).
+  change (vdivR tg (normR tg)) with (normalizeR tg). rewrite (normalize_of_unit tg Hu).
+  destruct tg as [[a b] c]. rsimp.
+  destruct (sqrt_facts _ EB) as [Hp Hs]. set (h := sqrt (a * a + b * b)) in *.
+  assert (Hh : h <> 0) by lra.
+  assert (Hi : / h * / h * (a * a + b * b) = 1) by (rewrite <- Hs; field; auto).
+  unfold Rdiv. remember (/ h) as ih. clear Heqih Hp Hs Hh h EB.
+  repeat split; nsatz.
 Qed.
